@@ -45,7 +45,7 @@ def jobs(tier):
     import ctparse.ctparse  # noqa
     C = sys.modules["ctparse.ctparse"]
     from ..harness.common import TR
-    nsep, ndash = (6, 3) if tier == "quick" else (10, 6)
+    nsep, ndash = (7, 3) if tier == "quick" else (12, 6)
     return [Job("C11.NORM-API", HA, "ob_norm", timeout=3600, path_timeout=120, env={"VQ_NSEP11": str(nsep), "VQ_NDASH11": str(ndash)},
                 bounds="10 expressions x {} separator strings (comma, bracket, tab, NBSP, blank run, ...) x {} dash variants x lower/upper/title case x with/without leading+trailing separators: same resolution; normalisation idempotent".format(nsep, ndash),
                 functions=[fn_id(C.ctparse), fn_id(C._preprocess_string)], stubs=["parser runs untraced; pool indices symbolic"], site="_preprocess_string"),
